@@ -232,7 +232,8 @@ def clone_probe(p):
         return Spec(method=method, N=2, M=1, degree=2, T=T, t0=t0, states=[2], params={"": [1]},
                     ode=E("f", None, ("x", "u", "t", "p") if ode_t else ("x", "u", "p")),
                     constraints=[Con(E("c1", 1, ("x", "u", "t", "T", "t0")), "le", 1.0), Con(E("b0", 2, (("at", "t0", "x"),)), "eq", 0.0),
-                                 Con(E("bf", 1, (("at", "tf", "x"), "p")), "le", 3.0)], objective=obj)
+                                 Con(E("bf", 1, (("at", "tf", "x"), "p")), "le", 3.0),
+                                 Con(E("ci", 1, ("x", "u", "p")), "le", 2.0, grid="integrator")], objective=obj)
     def user_quad(sp):
         if ok == "quad-state":
             st = sp.ocp
@@ -282,9 +283,9 @@ def signal_probe(p):
     from contracts.backend import ufun
     kind, method = p["kind"], p["method"]
     ocp = Ocp(T=1.5, t0=0.25)
-    x = ocp.state(2); u = ocp.control(); w = ocp.variable(); q = ocp.parameter(); ocp.set_value(q, 0.7)
+    x = ocp.state(2); u = ocp.control(); w = ocp.variable(); wc = ocp.variable(grid="control"); q = ocp.parameter(); ocp.set_value(q, 0.7)
     s = ocp.variable(grid="bspline", order=1) if kind == "variable" else ocp.parameter(grid="bspline", order=1)
-    ocp.set_der(x, ufun("f", 2, [x, u, s, w, q]))
+    ocp.set_der(x, ufun("f", 2, [x, u, s, w, wc, q]))
     N = 2
     if kind == "parameter":
         ocp.set_value(s, ca.DM([[0.3, -0.4, 0.9]]))
@@ -295,21 +296,22 @@ def signal_probe(p):
     opti = ocp._augmented._method.opti
     _, Xs = ocp.sample(x, grid="control"); _, Us = ocp.sample(u, grid="control"); _, Ss = ocp.sample(s, grid="control")
     ts, _ = ocp.sample(ocp.t, grid="control")
+    _, Wcs = ocp.sample(wc, grid="control")
     Wv = ocp.value(w); Qv = ocp.value(q)
     gvec = opti.g if opti.g.numel() else ca.MX.zeros(0, 1)
-    F = ca.Function("F", [opti.x, opti.p], [Xs, Us, Ss, ts, Wv, Qv, gvec])
+    F = ca.Function("F", [opti.x, opti.p], [Xs, Us, Ss, ts, Wv, Qv, gvec, Wcs])
     rs = np.random.RandomState(p.get("seed", 0))
     xv = rs.uniform(0.3, 1.3, size=opti.x.numel())
     pv = np.array(opti.debug.value(opti.p, opti.value_parameters())).reshape(-1)
-    X, U, S, t, W, Q, g = [np.array(v) for v in F(xv, pv)]
-    xs = ca.MX.sym("x", 2); a = ca.MX.sym("a", 4)
-    f = ca.Function("f", [xs, a], [ufun("f", 2, [xs, a[0], a[1], a[2], a[3]])])
+    X, U, S, t, W, Q, g, WC = [np.array(v) for v in F(xv, pv)]
+    xs = ca.MX.sym("x", 2); a = ca.MX.sym("a", 5)
+    f = ca.Function("f", [xs, a], [ufun("f", 2, [xs, a[0], a[1], a[2], a[3], a[4]])])
     t = t.reshape(-1)
     worst = 0.0
     xk = X[:, 0]
     for k in range(N):
         h = t[k + 1] - t[k]
-        arg = np.array([U.reshape(-1)[k], S.reshape(-1)[k], float(np.array(W).reshape(-1)[0]), float(np.array(Q).reshape(-1)[0])])
+        arg = np.array([U.reshape(-1)[k], S.reshape(-1)[k], float(np.array(W).reshape(-1)[0]), WC.reshape(-1)[k], float(np.array(Q).reshape(-1)[0])])
         x0 = X[:, k] if method == "MS" else xk
         k1 = np.array(f(x0, arg)).reshape(-1); k2 = np.array(f(x0 + h / 2 * k1, arg)).reshape(-1)
         k3 = np.array(f(x0 + h / 2 * k2, arg)).reshape(-1); k4 = np.array(f(x0 + h * k3, arg)).reshape(-1)
@@ -390,3 +392,43 @@ def spline_probe(p):
         return dict(status="confirmed", failing_input=dict(op=op, p=P, q=Q, coefficients=[v.tolist() for v in vals]),
                     observed=dict(s=S.tolist(), result_spline=got.tolist()), expected=dict(exact_polynomial=want.tolist()))
     return dict(status="not-reproduced", detail="result spline equals the exact polynomial at %d points" % len(S))
+
+
+def reinterpret_probe(p):
+    """C15: real reinterpret_expr + real BSpline algebra with real CasADi: the rows returned for a constraint shape,
+    evaluated at random Bernstein coefficients, against the constraint evaluated on the operand polynomials"""
+    import casadi as ca
+    from math import comb
+    from rockit.casadi_helpers import reinterpret_expr
+    from rockit.splines.spline import BSpline, BSplineBasis
+    from contracts.shapes import REINTERPRET_SHAPES
+    shape = p["shape"]
+    rs = np.random.RandomState(p.get("seed", 0))
+    def mk(name, d):
+        c = ca.MX.sym(name, d + 1)
+        return BSpline(BSplineBasis([0] * (d + 1) + [1] * (d + 1), d), c), c
+    def bern(c, d, s):
+        return sum(c[i] * comb(d, i) * s ** i * (1 - s) ** (d - i) for i in range(d + 1))
+    X0, X1, D0, W = ca.MX.sym("X0"), ca.MX.sym("X1"), ca.MX.sym("D0"), ca.MX.sym("W")
+    a, ca_ = mk("a", 4); b, cb = mk("b", 4); da, cd = mk("d", 3); w = ca.MX.sym("w")
+    expr = REINTERPRET_SHAPES[shape](X0, X1, D0, W)
+    try:
+        with contextlib.redirect_stdout(io.StringIO()) as buf:
+            r = reinterpret_expr(expr, [X0, X1, D0, W], [a, b, da, w])
+        if r is None or "Unknown operation" in buf.getvalue():
+            return dict(status="confirmed", failing_input=dict(shape=shape), observed="reinterpret_expr could not translate the constraint (%s)" % buf.getvalue()[:120].strip(), expected="coefficient-wise comparison")
+        vals = [rs.uniform(-2, 2, size=5), rs.uniform(-2, 2, size=5), rs.uniform(-2, 2, size=4), rs.uniform(-2, 2, size=1)]
+        lo, hi = r.dep(0), r.dep(1)
+        n = max(lo.numel(), hi.numel())
+        dv = np.array(ca.Function("F", [ca_, cb, cd, w], [ca.repmat(hi, n // hi.numel(), 1) - ca.repmat(lo, n // lo.numel(), 1)])(*vals)).reshape(-1)
+        U = ca.Function("U", [X0, X1, D0, W], [expr.dep(1) - expr.dep(0)])
+    except Exception as e:
+        return dict(status="confirmed", failing_input=dict(shape=shape), observed="%s: %s" % (type(e).__name__, str(e)[:300]), expected="the constraint is translated to coefficient rows")
+    d = n - 1
+    S = np.linspace(0, 1, 11)
+    got = np.array([bern(dv, d, s) for s in S])
+    want = np.array([float(U(bern(vals[0], 4, s), bern(vals[1], 4, s), bern(vals[2], 3, s), vals[3][0])) for s in S])
+    if np.max(np.abs(got - want)) > 1e-7 * (1 + np.max(np.abs(want))):
+        return dict(status="confirmed", failing_input=dict(shape=shape, coefficients=[v.tolist() for v in vals]),
+                    observed=dict(s=S.tolist(), bernstein_expansion_of_rows=got.tolist()), expected=dict(rhs_minus_lhs_on_the_step=want.tolist()))
+    return dict(status="not-reproduced", detail="rows expand to rhs - lhs at %d points (%d rows)" % (len(S), n))
